@@ -9,20 +9,166 @@ Judge: `FootJudge` — on the implementation's answers: footprint == sum of the 
        obtained from the OS minus bytes returned (ledger over the recorded mmap/mremap/munmap),
        every munmap/mremap lies inside memory held, after free-everything the heap is canonical
        (one free chunk or `top` per segment plus its trailer), and over workload x N rounds the
-       per-round peak footprint does not grow any more in the second half of the rounds."""
+       per-round peak footprint does not grow any more in the second half of the rounds.
+       `Reuse` — "freed space is reused by later requests", on the implementation's own answers: an operation whose
+       answer shows a request for memory to the OS (mmap, served or refused, or a growing mremap) although the
+       implementation's OWN heap as dumped right before the operation (= the layout part of the previous answer
+       line) held a free chunk that could have served the padded request — a binned chunk (small bin / tree bin)
+       of size >= nb, dv with dvsize >= nb, or top with topsize > nb, nb computed exactly as the model's
+       `inner_malloc` does (for over-aligned requests from memalign's over-allocated request) — is a violation
+       whose replay is the history up to and including that operation plus the ignored chunk.  The dv/top part is
+       the theorem reuse_without_os; the binned part is what the model's malloc_nosys does (any binned chunk of
+       size >= nb is usable, a remainder < MIN_CHUNK_SIZE is absorbed) and is cross-checked against the model on
+       every case: the same oracle runs on the MODEL's own answer lines and a complaint there is reported as an
+       internal error of the check (oracle stricter than the model), never as a violation of the code."""
 import os
+import re
 
 from . import common as C
 from . import c03
 
 
+# constants of dlmalloc.rs the reuse oracle needs (the cross-check against the model notices a drift)
+MALLOC_ALIGNMENT, CHUNK_OVERHEAD, MIN_CHUNK_SIZE, MIN_REQUEST = 16, 8, 32, 23
+REUSE_MAX_REQUEST = 1 << 40     # far below MAX_REQUEST; larger requests are not judged
+
+
+def padded_request(size, align):
+    """the padded chunk size `inner_malloc` looks for (the model's nbOf; for align > MALLOC_ALIGNMENT of the request
+    memalign hands to inner_malloc); None when nothing is claimed"""
+    def pad(n):
+        return MIN_CHUNK_SIZE if n < MIN_REQUEST else (n + CHUNK_OVERHEAD + MALLOC_ALIGNMENT - 1) & ~(MALLOC_ALIGNMENT - 1)
+    if size >= REUSE_MAX_REQUEST or align >= REUSE_MAX_REQUEST or align < 1:
+        return None
+    if align > MALLOC_ALIGNMENT:
+        size = pad(size) + max(align, MIN_CHUNK_SIZE) + MIN_CHUNK_SIZE - CHUNK_OVERHEAD
+    return pad(size)
+
+
+EMPTY_HEAP = {"dv": 0, "top": 0, "bins": [], "line": "(heap before the first mapping: nothing held)"}
+
+
+def free_view(out):
+    """what a full-layout answer line says about reusable free space: dvsize, topsize and the chunks in the small bins
+    and tree bins (place, address, size); None when the line carries no full layout"""
+    f = dict(x.split("=", 1) for x in out.split() if "=" in x)
+    if not all(k in f for k in ("C", "B", "T", "dv", "top")):
+        return None
+    sizes = {}
+    for seg in f["C"].split("/"):
+        for e in seg.split(","):
+            if e:
+                q = e.split(":")
+                sizes[q[0]] = int(q[1])
+    bins = []
+    for b in f["B"].split(";"):
+        if b:
+            idx, addrs = b.split(":")
+            for a in addrs.split(","):
+                bins.append(("smallbin %s" % idx, int(a), sizes[a]))
+    for t in f["T"].split(";"):
+        if t:
+            idx = t.split(":", 1)[0]
+            for m in re.finditer(r"\((\d+):(\d+)((?:~\d+)*)", t):
+                bins.append(("treebin %s" % idx, int(m.group(1)), int(m.group(2))))
+                for u in m.group(3).split("~")[1:]:
+                    bins.append(("treebin %s (same-size ring)" % idx, int(u), int(m.group(2))))
+    return {"dv": int(f["dv"].split(":")[1]), "top": int(f["top"].split(":")[1]), "bins": bins, "line": out}
+
+
+def asks_os_for_memory(ev):
+    """the events of an answer that ask the OS for memory: every mmap (served or refused) and a growing mremap"""
+    asked = []
+    if ev != "-":
+        for e in ev.split(";"):
+            if e[0] == "M":
+                asked.append(e)
+            elif e[0] == "R":
+                q = e[1:].split(":")
+                if int(q[2]) > int(q[1]):
+                    asked.append(e)
+    return asked
+
+
+class Reuse:
+    """the reuse oracle over one stream of (operation, answer) lines of ONE party (implementation or model)"""
+
+    def __init__(self):
+        self.prev = EMPTY_HEAP      # free view of the heap before the next operation; None = unknown
+        self.align = {}             # id -> alignment of the live block
+        self.detail = None
+        self.judged = 0
+
+    def __call__(self, case, out):
+        try:
+            return self.step(case, out)
+        except (ValueError, KeyError, IndexError):
+            self.prev = None
+            return None
+
+    def step(self, case, out):
+        w = case.split("|")[0].split()
+        if not w:
+            return None
+        if w[0] == "reset":
+            self.prev, self.align = EMPTY_HEAP, {}
+            return None
+        if w[0] not in ("m", "c", "r", "f") or out == "bad-op":
+            return None
+        before, self.prev = self.prev, None
+        f = dict(x.split("=", 1) for x in out.split() if "=" in x)
+        if "p" not in f or "os" not in f:
+            return None             # panic / poisoned / error outcome: nothing known from here on
+        self.prev = free_view(out)
+        i = int(w[1])
+        if w[0] == "f":
+            self.align.pop(i, None)
+            return None
+        if w[0] == "r":
+            if i not in self.align:
+                return None
+            size, align = int(w[2]), self.align[i]
+        else:
+            size, align = int(w[2]), int(w[3])
+            if f["p"] != "-":
+                self.align[i] = align
+        asked = asks_os_for_memory(f["os"])
+        if not asked or before is None:
+            return None
+        nb = padded_request(size, align)
+        if nb is None:
+            return None
+        self.judged += 1
+        fit = None
+        if before["dv"] >= nb:
+            fit = ("dv", None, before["dv"])
+        elif before["top"] > nb:
+            fit = ("top", None, before["top"])
+        else:
+            cands = [b for b in before["bins"] if b[2] >= nb]
+            if cands:
+                fit = min(cands, key=lambda b: (b[2], b[1]))
+        if fit is None:
+            return None
+        self.detail = {"request_bytes": size, "request_align": align, "padded_request_nb": nb, "os_requests": asked,
+                       "ignored_free_chunk": {"where": fit[0], "address": fit[1], "size": fit[2]},
+                       "usable_free_chunks": len([b for b in before["bins"] if b[2] >= nb]),
+                       "heap_before_the_operation": before["line"][:6000]}
+        return ("freed space not reused: request of %d bytes (align %d, padded %d) asked the OS for memory (%s) although the heap "
+                "held a free chunk of %d bytes in %s%s" % (size, align, nb, ";".join(asked)[:80], fit[2], fit[0],
+                                                            (" at %d" % fit[1]) if fit[1] is not None else ""))
+
+
 class FootJudge(c03.Judge):
-    """C03's oracle plus the footprint obligations; rounds are recognised by id // ROUND"""
+    """C03's oracle plus the footprint obligations and the reuse oracle; rounds are recognised by id // ROUND"""
     ROUND = 1000000
 
     def __init__(self, rounds_expected=0):
+        self.reuse = Reuse()            # on the implementation's answers
+        self.reuse_model = Reuse()      # the same oracle on the model's answers: must never complain
         super().__init__()
         self.rounds_expected = rounds_expected
+        self.detail = None
 
     def reset(self):
         super().reset()
@@ -34,7 +180,24 @@ class FootJudge(c03.Judge):
     def held(self):
         return sum(e - s for s, e in self.mapped)
 
+    @staticmethod
+    def sig_of(case, out, why):
+        return sig_of(case, out, why)
+
+    def model_side(self, case, model_out):
+        why = self.reuse_model(case, model_out)
+        return ("reuse oracle on the model's own answers: " + why) if why else None
+
     def __call__(self, case, out):
+        self.detail = None
+        unused = self.reuse(case, out)          # always stepped: it carries the heap seen before the next operation
+        why = self.foot(case, out)
+        if why is None and unused:
+            self.detail = self.reuse.detail
+            return unused
+        return why
+
+    def foot(self, case, out):
         why = super().__call__(case, out)
         if why:
             return why
@@ -109,7 +272,8 @@ class FootJudge(c03.Judge):
 
 
 def sig_of(case, out, why):
-    import re
+    if why.startswith("freed space not reused"):
+        return {"op": case.split()[0], "kind": "freed space not reused"}
     for pre in ("footprint", "max_footprint", "segment not inside", "quiescent heap", "peak footprint keeps growing"):
         if why.startswith(pre):
             return {"op": case.split()[0], "kind": re.sub(r"[0-9]+", "N", why)[:70]}
@@ -154,6 +318,101 @@ def rounds_lines(r, items, order, n, policy="l", interleave=False):
         for i in seq:
             lines.append("f %d | P%s" % (i, policy))
     return lines
+
+
+def chunk_req(chunk):
+    """a request whose padded size is `chunk` (a multiple of 16, >= 32)"""
+    return max(1, chunk - CHUNK_OVERHEAD)
+
+
+def reuse_histories(r, n):
+    """short histories aimed at 'a fitting free chunk exists, but not where the search looks first': free chunks of
+    different size classes kept apart by live blocks, `top` and `dv` too small, then requests between the sizes —
+    in the size class of a too-small free chunk (own tree bin non-empty, nothing in it fits, a fitting chunk sits in a
+    higher bin), across the tree-bin boundaries (…, 0x100000, 0x180000, 0x200000, …) and for small-bin sizes"""
+    hs = []
+    for hn in range(n):
+        g = c03.Gen(r)
+        form = hn % 4
+        kind = lambda: r.choice("mmmc")
+        if form == 0:
+            # small bins: chunks of 32..240 bytes
+            a = 16 * r.range(2, 12)
+            b = a + 16 * r.range(1, 15 - a // 16)
+            decoys = [a] + [16 * r.range(2, a // 16) for _ in range(r.below(3))]
+            big = [b] + [16 * r.range(b // 16, 15) for _ in range(r.below(2))]
+            want = [a + 16 * r.range(1, (b - a) // 16) for _ in range(r.range(1, 3))]
+            pin = 24
+        elif form in (1, 2):
+            # tree bins inside one 64 KiB segment: own bin 0..11, the fitting chunk in a higher bin (or the same one)
+            i = r.range(0, 11)
+            lo, hi = c03.min_size_for_tree_index(i), c03.min_size_for_tree_index(i + 1)
+            a = lo + 16 * r.below(max(1, (hi - lo) // 32))
+            decoys = [a] + [lo + 16 * r.below(max(1, (a - lo) // 16 + 1)) for _ in range(r.below(3))]
+            b = r.choice([hi, hi + 16 * r.below(40), c03.min_size_for_tree_index(i + 2), hi - 16])
+            big = [b]
+            want = [r.choice([a + 16, a + 16 * r.range(1, max(1, (hi - a) // 16 - 1)), hi - 16, hi - 32, b, b - 16, b - 32])
+                    for _ in range(r.range(1, 3))]
+            want = [x for x in want if a < x <= b] or [a + 16]
+            pin = r.choice([24, 24, 100, 300])
+        else:
+            # tree bins with one mapping per block (blocks of 64 KiB .. 4 MiB), pins with mappings of their own in between
+            i = r.range(16, 27)
+            lo, hi = c03.min_size_for_tree_index(i), c03.min_size_for_tree_index(i + 1)
+            a = r.choice([lo, lo + 4096 * r.below(max(1, (hi - lo) // 8192)), lo + 0x1000])
+            decoys = [a]
+            b = r.choice([hi, hi + 65536 * r.below(8), c03.min_size_for_tree_index(i + 2), hi + 0x1000])
+            big = [b]
+            want = [r.choice([hi - 0x1000, hi - 16, a + 16, a + 4096 * r.range(1, max(1, (hi - a) // 4096 - 1)), hi - 65536])
+                    for _ in range(r.range(1, 3))]
+            want = [x for x in want if a < x <= b] or [hi - 16]
+            pin = 70000
+        pol = "Pl" if form != 3 or r.chance(3, 4) else "P" + r.choice("gla")
+        g.alloc(pin if form == 3 else 24, 8, "m", pol)
+        holes = []
+        blocks = [(x, 0) for x in decoys] + [(x, 1) for x in big]
+        for x, _ in (r.shuffle(blocks) if r.chance(1, 2) else blocks):
+            holes.append(g.alloc(chunk_req(x), r.choice([1, 8, 16]), kind(), pol))
+            g.alloc(pin, 8, "m", pol)                       # keeps the holes apart (and away from top)
+        if form != 3:
+            # use up `top` of the single 64 KiB segment (65456 bytes of chunks) down to 48 bytes
+            used = 32 + sum(x for x, _ in blocks) + len(blocks) * ((pin + 8 + 15) & ~15)
+            rest = 65456 - used - 48
+            if rest >= 32:
+                g.alloc(chunk_req(rest & ~15), 8, "m", pol)
+        for hole in (r.shuffle(holes) if r.chance(1, 2) else holes):
+            g.free(hole)
+        for rnd in range(r.range(1, 3)):                    # the request between the sizes, several rounds of it
+            ids = [g.alloc(chunk_req(x) - r.choice([0, 0, 1, 7]), r.choice([1, 8, 16]), kind(), pol) for x in want]
+            if r.chance(1, 4):
+                g.alloc(pin, 8, "m", pol)
+            for j in ids:
+                g.free(j)
+        g.free_all()
+        hs.append(g)
+    return hs
+
+
+def reuse_search(ctx, name, exe, fd):
+    """failing-input search for a correspondence stream that disagrees although no oracle complained: the history up to
+    the first disagreement is run again on the implementation alone with the full layout dumped after every operation,
+    so that the reuse oracle (and the layout parts of the footprint oracle) see the heap right before every operation.
+    The first complaint is a violation with the history as replay."""
+    hist = [("dump full" if l.startswith("dump ") else l) for l in fd["history"]]
+    rc, outs, err = C.run_filter([exe], hist, timeout=3000)
+    j = FootJudge(0)
+    ctx.evaluations += len(outs)
+    for i, (c_, a) in enumerate(zip(hist, outs)):
+        why = j(c_, a)
+        if why:
+            rp = {"stream": name + " (prefix of the first disagreement, full layout dumped)", "why": why, "history": hist[:i + 1],
+                  "failing_operation": c_, "implementation": a[:2000],
+                  "how_to_replay": "feed the lines of `history` (one per line) to " + exe}
+            if j.detail:
+                rp["detail"] = j.detail
+            ctx.violation(sig_of(c_, a, why), rp)
+            return True
+    return False
 
 
 NL = os.path.join(C.VERIF, "harness-nolibc")
@@ -269,11 +528,18 @@ def run(ctx):
     ctx.rule = ("cases = workloads (3..60 blocks; small / mixed / large sizes up to 32 MiB, alignments 1..8192, optionally interleaved "
                 "frees; free order LIFO/FIFO/random/every-other) repeated N times with mmap placement below the lowest mapping (as "
                 "Linux), adjacent above, or disjoint; distinct_nontrivial = distinct (workload kind, free order, placement policy, "
-                "interleaved, number of segments reached, trim seen, segment release seen) classes")
+                "interleaved, number of segments reached, trim seen, segment release seen) classes; plus the `reuse` stream: short "
+                "directed histories (free chunks of different small-bin / tree-bin classes kept apart by live blocks, top and dv used "
+                "up, then requests between the sizes: own bin non-empty but nothing in it fits, across tree-bin boundaries up to 4 MiB), "
+                "classes (small/tree request, where fitting chunks were, too-small chunks present, dv fits, top fits, OS asked)")
     ctx.assumptions += c03.ASSUMPTIONS + [
         "the closed-form bound footprint <= f(peak live bytes) for arbitrary histories (a Robson-type fragmentation bound) is NOT proved; "
         "proved: footprint bookkeeping exact, OS asked only when neither dv nor top fits, determinism fixpoint; observed: per-round peak "
         "footprint stops growing on every generated workload",
+        "reuse oracle (an OS request although the heap dumped right before the operation holds a usable free chunk is a violation): "
+        "the dv/top part is the theorem reuse_without_os; the binned part (a small-bin/tree-bin chunk of size >= the padded request is "
+        "found by the search) is NOT a theorem — it is what the model's malloc_nosys does on every explored case: the same oracle runs "
+        "on the model's own answers and a complaint there is reported as an internal error of the check",
         "multi-threaded use goes through GlobalDlMalloc = Mutex<Dlmalloc> (C01 proves the mutex); the sequential allocator is what is "
         "modelled here",
     ]
@@ -290,6 +556,30 @@ def run(ctx):
         ctx.violation({"kind": "harness-build-failed"}, {"error": err}, no_input=True)
         return
     r = ctx.rng
+    # reuse: directed histories (free chunks of different classes kept apart, top and dv used up, requests in between)
+    # (first, so that a failure is reported with a short history; own generator: the workloads below do not depend on it)
+    rh = reuse_histories(C.Rng(ctx.seed ^ 0x5e05e), 160 if quick else 4000)
+    rconc = c03.run_histories(ctx, "reuse", exe, drv, rh, judge_factory=lambda: FootJudge(0), timeout=3000)
+    if rconc is not None:
+        rc, outs, _ = C.run_filter([exe], rconc, timeout=3000)
+        jr = Reuse()
+        prev = None
+        for c_, o_ in zip(rconc, outs):
+            w = c_.split()
+            if w and w[0] in ("m", "c") and " os=" in o_ and prev is not None:
+                # which free space served the request: classes of (own bin state, where a fitting chunk was, OS asked)
+                nb = padded_request(int(w[2]), int(w[3]))
+                if nb is not None:
+                    own = "small" if nb < 256 else "tree"
+                    fits = sorted(set(b[0].split()[0] for b in prev["bins"] if b[2] >= nb))
+                    small_only = any(b[2] < nb for b in prev["bins"])
+                    asked = bool(asks_os_for_memory(o_.split(" os=")[1].split()[0]))
+                    ctx.count(("reuse", own, tuple(fits), small_only, prev["dv"] >= nb, prev["top"] > nb, asked))
+                    ctx.hist("reuse_served_from", "os" if asked else ("dv" if prev["dv"] >= nb and not fits else
+                                                                     ("bins" if fits else ("top" if prev["top"] > nb else "dv/top"))))
+            jr(c_, o_)
+            prev = jr.prev
+        ctx.extra["reuse_oracle"] = {"histories": len(rh), "operations": len(rconc), "os_requests_judged": jr.judged}
     nw = 12 if quick else 120
     n = 20 if quick else 60
     # directed: blocks above the trim threshold with every new mapping disjoint from the old ones (as when foreign
@@ -328,7 +618,8 @@ def run(ctx):
     items, order = workload(r, "mixed")
     nlong = 200 if quick else 2000
     lines = rounds_lines(r, items[:25], order, nlong, "l", True)
-    c03.run_histories(ctx, "rounds-long", exe, drv, [lines], judge_factory=lambda: FootJudge(nlong), timeout=3000, dump="hash")
+    c03.run_histories(ctx, "rounds-long", exe, drv, [lines], judge_factory=lambda: FootJudge(nlong), timeout=3000, dump="hash",
+                      on_disagree=reuse_search)
     probe_runs(ctx, r, quick)
     if not ok and not ctx.violations:
         ctx.violation({"kind": "proof-broken"}, {"broken": ctx.broken}, no_input=True)
